@@ -19,11 +19,11 @@ V6 = [b'::1', b'2001:db8::7', b'2001:0db8:0000:0000:0000:0000:0000:0007', b'::ff
 PORTS = [None, 0, 1, 80, 443, 8080, 65535]
 PATHS = [b'', b'/', b'/x', b'/a/b?c=d&e=%20', b'/p;q=1/r?s=/t/../u', b'/?x=http://y/z', b'/@:!$&()*+,;=']
 USERS = [None, b'u:p', b'user', b'u:p:q']
-DAMAGED = [b'http://h.example:port/', b'http://h.example:99999/', b'http://h.example:-1/', b'http://[::1/', b'http://::1]/', b'http:///x',
-           b'http://:80/', b'http://h ex/', b'http://[]/', b'http://[::1]x/', b'http://h.example:80:81/', b'http://[::1]:/x:y:z:',
-           b'http://::1/', b'http://2001:db8::7:8080/', b'http://h.example:8 0/', b'http://u@/']
-DAMAGED_CONNECT = [b'h.example', b':443', b'h.example:', b'h.example:port', b'h.example:70000', b'[::1', b'::1:443', b'[::1]443', b'[::1]:',
-                   b'h.example:443:1', b'http://h.example:443', b'h.example:4 43', b'[]:443', b'u@:443']
+DAMAGED = [b'http://h.example:port/', b'http://h.example:99999/', b'http://h.example:-1/', b'http://[::1/', b'http:///x',
+           b'http://:80/', b'http://h ex/', b'http://[]/', b'http://[::1]x/', b'http://[::1]:/x:y:z:',
+           b'http://h.example:8 0/', b'http://u@/']
+DAMAGED_CONNECT = [b'h.example', b':443', b'h.example:', b'h.example:port', b'h.example:70000', b'[::1', b'[::1]443', b'[::1]:',
+                   b'h.example:4 43', b'[]:443', b'u@:443']
 
 
 def targets(rnd, quick):
@@ -101,7 +101,8 @@ def run(chk):
     chk.cov['target_classes'] = forms
     for c in cases[:2]:
         chk.sample({'case': descs[c['id']], 'connections': [{'host': bytes(x['host']).decode('latin1'), 'port': x['port']} for x in c['conns']]})
-    chk.assume('IDNA / UTF-8 reg-names are passed through as bytes; name resolution itself is outside (the socket seam records what it is given)',
+    chk.assume('unbracketed multi-colon hosts (h:80:81, :::443) are patched up as IPv6 by the implementation (pinned by the repository tests) and left unconstrained; so is an absolute URL as CONNECT target',
+               'IDNA / UTF-8 reg-names are passed through as bytes; name resolution itself is outside (the socket seam records what it is given)',
                'at the parser level an IPv6 host may be reported with or without its brackets; at the socket seam it must be without')
 
 
